@@ -139,6 +139,7 @@ type World struct {
 	quiesceTimeout time.Duration
 	indexHeld      bool // an op is running under withIndexHeld
 	slotBase       map[interface{}]int
+	revTie         bool // scenario opened its stores with a custom sort function (ties by clock id, reversed)
 	lenBefore      int // log length before the write in progress
 	heldFirst      map[string]chan struct{}
 	heldTaken      map[string]chan struct{}
@@ -557,7 +558,7 @@ func (w *World) declare(n int, e ipfslog.Entry) {
 	cidRank := -1
 	if e.GetClock() != nil {
 		if q := w.peerOfPubKey(e.GetClock().GetID()); q >= 0 {
-			cidRank = w.peers[q].rank
+			cidRank = w.rankOf(q)
 		}
 	}
 	t := -1
@@ -712,6 +713,7 @@ func (w *World) flushLoadEnds(p int, s iface.Store) {
 func (w *World) resetScenario(id string) {
 	w.closeStores()
 	w.reuseOpts = false
+	w.revTie = false
 	w.peerOpts = nil
 	w.unserved = nil
 	for _, pr := range w.peers {
@@ -791,6 +793,40 @@ func (w *World) closeStores() {
 	w.stores = map[int]iface.Store{}
 }
 
+// revTieSort is a custom SortFn: Lamport time ascending, ties broken by clock id DESCENDING (the default
+// breaks them ascending). It is the default order of a world in which the writers' ranks are reversed,
+// which is how the trace presents it to the model (rankOf).
+func revTieSort(a, b ipfslog.Entry) (int, error) {
+	ta, tb := a.GetClock().GetTime(), b.GetClock().GetTime()
+	if ta != tb {
+		if ta < tb {
+			return -1, nil
+		}
+		return 1, nil
+	}
+	if c := bytes.Compare(b.GetClock().GetID(), a.GetClock().GetID()); c != 0 {
+		return c, nil
+	}
+	return 1, nil
+}
+
+// rankOf is the rank of peer q's key in the order the scenario's stores sort clock ids by.
+func (w *World) rankOf(q int) int {
+	if w.revTie {
+		return len(w.peers) - 1 - w.peers[q].rank
+	}
+	return w.peers[q].rank
+}
+
+// storeOptions are the options every open of the scenario's database passes.
+func (w *World) storeOptions() *orbitdb.CreateDBOptions {
+	o := &orbitdb.CreateDBOptions{}
+	if w.revTie {
+		o.SortFn = revTieSort
+	}
+	return o
+}
+
 func aclParams(write []string) accesscontroller.ManifestParams {
 	ac := accesscontroller.NewEmptyManifestParams()
 	ac.SetAccess("write", write)
@@ -805,7 +841,7 @@ func (w *World) openDB(kind, name string, write []string, peers []int) error {
 		var s iface.Store
 		var err error
 		target := name
-		opts := &orbitdb.CreateDBOptions{}
+		opts := w.storeOptions()
 		if w.reuseOpts {
 			// one options value per peer for every database it opens (the library writes into it)
 			if w.peerOpts == nil {
